@@ -117,7 +117,7 @@ func genKeyTypeForValues(t *rapid.T) *tn {
 
 // ---- value generation driven by the reflect type ----
 
-var strPool = []string{"", "a", "hello world", "quote\"d", "back`tick", "new\nline", "tab\t", "nul\x00", "\xff\xfe invalid", "é中🙂", "%v @x 'y'", "\\back\\slash", "'", "//c", " "}
+var strPool = []string{"", "a", "A", "Key", "key", "KEY", "Content-Type", "content-type", "hello world", "quote\"d", "back`tick", "new\nline", "tab\t", "nul\x00", "\xff\xfe invalid", "é中🙂", "%v @x 'y'", "\\back\\slash", "'", "//c", " "}
 
 func genLeafInt(t *rapid.T, bits int) int64 {
 	min, max := int64(math.MinInt64), int64(math.MaxInt64)
@@ -190,7 +190,7 @@ func genValue(t *rapid.T, rt reflect.Type, depth int) *vn {
 	case reflect.Int32:
 		var i int64
 		if rapid.Bool().Draw(t, "runeish") {
-			i = int64(rapid.SampledFrom([]rune{'a', '\'', '\\', 0, '\n', 'é', 0x10FFFF, 0xD800, '"', '中', 0x7f}).Draw(t, "rune"))
+			i = int64(rapid.SampledFrom([]rune{'a', 'A', '\'', '\\', 0, '\n', 'é', 0x10FFFF, 0xD800, '"', '中', 0x7f}).Draw(t, "rune"))
 		} else {
 			i = genLeafInt(t, 32)
 		}
@@ -364,15 +364,24 @@ func build(rt reflect.Type, v *vn) reflect.Value {
 
 func genC10(t *rapid.T) c10Case {
 	c := c10Case{T: genValueType(t, rapid.IntRange(0, 4).Draw(t, "vdepth"), true)}
+	if rapid.IntRange(0, 19).Draw(t, "vcompete") == 0 {
+		// containers whose entries decide which of two packages with the same natural import name is mentioned first
+		e := rapid.SampledFrom([]*tn{nm("delta", "Mixed"), nm("delta", "Either"), {K: "ptr", Elem: nm("delta", "Either")}}).Draw(t, "vcompelem")
+		if rapid.Bool().Draw(t, "vcompmap") {
+			c.T = &tn{K: "map", Key: genKeyTypeForValues(t), Elem: e}
+		} else {
+			c.T = &tn{K: "slice", Elem: e}
+		}
+	}
 	rt, ok := c.T.toReflect()
 	if !ok {
 		panic("harness: value type without reflect form: " + c.T.key())
 	}
 	c.V = genValue(t, rt, 3)
-	c.Target = rapid.SampledFrom([]string{"other", "other", "own:alpha", "own:beta", "own:gamma", "clash"}).Draw(t, "vtarget")
+	c.Target = rapid.SampledFrom([]string{"other", "other", "own:alpha", "own:beta", "own:gamma", "own:delta", "own:left", "clash"}).Draw(t, "vtarget")
 	c.Via = rapid.SampledFrom([]string{"value", "value", "format"}).Draw(t, "vvia")
-	// beta/v1 imports alpha: a value that mentions beta cannot be written inside package alpha (import cycle)
-	if c.Target == "own:alpha" && mentions(c.T, "beta") {
+	// a value that mentions a package which imports the target cannot be written inside the target (import cycle)
+	if strings.HasPrefix(c.Target, "own:") && !ownTargetPossible(strings.TrimPrefix(c.Target, "own:"), func(p string) bool { return mentions(c.T, p) }) {
 		c.Target = "other"
 	}
 	return c
@@ -645,10 +654,12 @@ func oracleC10(c c10Case) error {
 	if err != nil {
 		return fmt.Errorf("%w (value %#v)", err, orig.Interface())
 	}
-	// deterministic text
-	text2, _, err := renderValue(c, orig, targetPath)
-	if err != nil || text2 != text {
-		return fmt.Errorf("a %s renders as %q and then as %q (%v)", c.T.key(), text, text2, err)
+	// deterministic text (map iteration order is random per rendering: several renderings)
+	for round := 0; round < 4; round++ {
+		text2, _, err := renderValue(c, orig, targetPath)
+		if err != nil || text2 != text {
+			return fmt.Errorf("a %s renders as %q and then as %q (%v)", c.T.key(), text, text2, err)
+		}
 	}
 	// probe: package <target>, the tracker's imports, the harness's own aliases, var V <T> = <literal>
 	ownPkg := ""
@@ -895,7 +906,13 @@ func oracleC10Batch(b c10Batch) error {
 		}
 		sort.Slice(paths, func(x, y int) bool { return len(imports[paths[x]]) > len(imports[paths[y]]) })
 		for _, p := range paths {
-			if _, isFx := map[string]bool{fxPaths["alpha"]: true, fxPaths["beta"]: true, fxPaths["gamma"]: true}[p]; !isFx {
+			if _, isFx := func() map[string]bool {
+				m := map[string]bool{}
+				for _, fp := range fxPaths {
+					m[fp] = true
+				}
+				return m
+			}()[p]; !isFx {
 				continue
 			}
 			alias := fmt.Sprintf("c%d_%s", i, imports[p])
@@ -905,7 +922,11 @@ func oracleC10Batch(b c10Batch) error {
 		fmt.Fprintf(&decls, "var v%d %s = %s\n\n", i, c.T.spell(aliasQual), text)
 		fmt.Fprintf(&mainBody, "\tfmt.Println(%d, dumpval.Dump(reflect.ValueOf(&v%d).Elem()))\n", i, i)
 	}
-	prog.WriteString(")\n\nvar _ = reflect.ValueOf\n\nvar (\n\t_ hx_alpha.Int\n\t_ hx_beta.Kind\n\t_ hx_gamma.Level\n)\n\n")
+	prog.WriteString(")\n\nvar _ = reflect.ValueOf\n\nvar (\n")
+	for k := range fxPaths {
+		fmt.Fprintf(&prog, "\t_ %s.%s\n", fxAlias[k], fxRep[k])
+	}
+	prog.WriteString(")\n\n")
 	prog.WriteString(decls.String())
 	prog.WriteString("func main() {\n" + mainBody.String() + "}\n")
 	_ = os.MkdirAll(filepath.Join(dir, "cmd", "probe"), 0o755)
